@@ -7,9 +7,7 @@ REPO="${VP_RUN_REPO:-/repo}"
 cd "$ROOT"
 if [ "$REPO" != "/repo" ]; then
     sed -i "s#/repo/#$REPO/#g" sim/shadow/rodbus/Cargo.toml sim/shadow/rodbus-ffi/Cargo.toml
-    sed -i "s#target-dir = .*#target-dir = \"$ROOT/target\"#" sim/.cargo/config.toml
     sed -i "s#/repo/#$REPO/#g" shuttle_engine/shadow/rodbus/Cargo.toml shuttle_engine/shadow/rodbus-ffi/Cargo.toml
-    sed -i "s#target-dir = .*#target-dir = \"$ROOT/target/shuttle\"#" shuttle_engine/.cargo/config.toml
 fi
 ALL="C01 C02 C03 C04 C05 C06 C07 C08 C09 C10 C11 C12 C13 C14 C15 C16 C17 C18 C19 C20"
 ./check build || exit 2
